@@ -131,7 +131,8 @@ def is_clean(d):
             and d.get("SPOOF", 0) == 0 and d.get("GARBAGE", 0) == 0
             and d.get("LINK_MTU", 1500) >= max(d.get("MTUD_UPPER", 0), d.get("INITIAL_MTU", 1200))
             and d.get("MIGRATE_AT", 0) == 0 and d.get("SILENCE_AFTER", -1) < 0
-            and d.get("LINK_MTU_AT", 0) == 0 and d.get("LATE_US", 0) == 0)
+            and d.get("LINK_MTU_AT", 0) == 0 and d.get("LATE_US", 0) == 0
+            and d.get("ZERO_RTT", 0) == 0 and d.get("HOSTILE_AT", 0) == 0)
 
 
 def trace_stats(cases, outs):
